@@ -1,4 +1,8 @@
 pub mod crash;
+pub mod gsom;
+pub mod pop;
+pub mod rl;
+pub mod structs;
 pub mod w1;
 pub mod w2;
 pub mod w3;
